@@ -35,6 +35,10 @@ func (c *momentumPool) AddMomentumTransaction(insertLocker sync.Locker, transact
 
 	momentum := transaction.Momentum
 
+	// the frontier may have moved between the generation of the transaction and its insertion
+	if frontier := c.getFrontierStore().Identifier(); momentum.Previous() != frontier {
+		return errors.Errorf("can't insert momentum %v. Previous %v is not the frontier %v", momentum.Identifier(), momentum.Previous(), frontier)
+	}
 	if err := c.chainManager.Add(transaction); err != nil {
 		return err
 	}
